@@ -158,6 +158,8 @@ class Sym:
     def _floordiv(a, b):
         if _is_int(a) and _is_int(b):
             # python floor division; z3 `div` floors only for positive divisors
+            if z3.is_int_value(b) and b.as_long() > 0:
+                return a / b
             return z3.If(b > 0, a / b, (-a) / (-b))
         q = _real(a) / _real(b)
         return z3.ToReal(z3.ToInt(q))
@@ -171,6 +173,8 @@ class Sym:
     @staticmethod
     def _mod(a, b):
         if _is_int(a) and _is_int(b):
+            if z3.is_int_value(b) and b.as_long() > 0:
+                return a % b
             return a - b * Sym._floordiv(a, b)
         a, b = _real(a), _real(b)
         return a - b * z3.ToReal(z3.ToInt(a / b))
